@@ -45,13 +45,15 @@ theorem close_ok {s : Store} {d : Disk} {A C : List Rec} (i : SInv s d A C) (di 
     · exact f.dfin
 
 theorem inv_init : Inv Sys.init := by
-  refine ⟨⟨?_, ?_, ?_, ?_, ?_, ?_⟩, ?_, ?_⟩
+  refine ⟨⟨?_, ?_, ?_, ?_, ?_, ?_, ?_, ?_⟩, ?_, ?_⟩
   · simp [Sys.init, numsAsc]
   · intro f hf; simp [Sys.init] at hf
   · intro _; rfl
   · intro z hz; simp [Sys.init] at hz
   · exact Presents.nil
   · intro r hr; simp [Sys.init, recsOf] at hr
+  · intro w hw; simp [Sys.init] at hw
+  · intro w hw; simp [Sys.init] at hw
   · intro h; simp [Sys.init] at h
   · intro F hF; simp [Sys.init] at hF
 
@@ -189,7 +191,7 @@ theorem Inv.step {sys : Sys} (i : Inv sys) (op : Op) : Inv (sys.step op).1 := by
     · obtain ⟨s', d', ho, di', si', cl'⟩ := open_inv i.d
       rw [ho]
       exact ⟨di', fun _ _ => si', i.rem⟩
-  | crash c k mask =>
+  | crash c k mask alt =>
     simp only [Sys.step]
     cases hb : (sys.bases c)[k]? with
     | none => exact i
@@ -198,7 +200,7 @@ theorem Inv.step {sys : Sys} (i : Inv sys) (op : Op) : Inv (sys.step op).1 := by
       have hm : (bd, infl) ∈ sys.bases c := List.mem_of_getElem? hb
       have db := i.bases c (bd, infl) hm
       simp only at db ⊢
-      refine ⟨db.resurrect mask, fun h => (by cases h), ?_⟩
+      refine ⟨db.resurrect mask alt, fun h => (by cases h), ?_⟩
       intro F hF
       have := i.rem F hF
       show Low (maxPrune (if _ then _ else _)) _
@@ -217,47 +219,82 @@ theorem inv_run (ops : List Op) : Inv (Sys.init.run ops) := by
   exact key ops _ inv_init
 
 theorem mem_images {sys : Sys} {c : COp} {img : Disk} {infl : Bool} (h : (img, infl) ∈ sys.images c) :
-    ∃ b mask, (b, infl) ∈ sys.bases c ∧ img = b.resurrect mask := by
+    ∃ b mask alt, (b, infl) ∈ sys.bases c ∧ img = b.resurrect mask alt := by
   unfold Sys.images at h
   obtain ⟨b, hb, hm⟩ := List.mem_flatMap.mp h
-  obtain ⟨m, _, he⟩ := List.mem_map.mp hm
-  simp only [Prod.mk.injEq] at he
-  obtain ⟨rfl, rfl⟩ := he
-  exact ⟨b.1, m, hb, rfl⟩
+  obtain ⟨m, _, he⟩ := List.mem_flatMap.mp hm
+  simp only [List.mem_cons, Prod.mk.injEq, List.not_mem_nil, or_false] at he
+  rcases he with ⟨rfl, rfl⟩ | ⟨rfl, rfl⟩
+  · exact ⟨b.1, m, false, hb, rfl⟩
+  · exact ⟨b.1, m, true, hb, rfl⟩
 
 end Juno.C14
 
 namespace Juno.C14
 open AMap
 
-theorem cleanup_out (s : Store) (d : Disk) (n : Nat) : (cleanup s d n).out = .ok := rfl
+theorem ensureWriter_fields (s : Store) (d : Disk) :
+    (ensureWriter s d).1.idx = s.idx ∧ (ensureWriter s d).1.pending = s.pending ∧
+    (ensureWriter s d).1.closed = s.closed ∧ (ensureWriter s d).1.repairRequired = s.repairRequired := by
+  unfold ensureWriter
+  cases s.writer <;> simp
+
+theorem cleanup_out_committed (s : Store) (d : Disk) (n : Nat) (ft : Fault) :
+    (cleanup s d n ft).out ≠ .errNotCommitted := by
+  unfold cleanup
+  simp only
+  split
+  · simp
+  · split <;> simp
 
 /-- `flushLocked` without an injected failure on an open store whose writer is not blocked
 returns `nil`. -/
 theorem flush_none_ok (s : Store) (d : Disk) (hc : s.closed = false) (hr : s.repairRequired = false) :
     (flushLocked s d .none).out = .ok := by
   unfold flushLocked
-  simp only [hc, hr, Bool.false_eq_true, ↓reduceIte]
+  simp only [hc, hr, Bool.false_eq_true, ↓reduceIte, reduceCtorEq, decide_false, Bool.false_and]
   split
   · rfl
   · split
     · rfl
     · split
       · rfl
-      · have hne : (Fault.none = Fault.watermark) = False := by simp
-        simp only [hne, ↓reduceIte]
-        rfl
+      · simp [cleanup, Fault.cleanupFails]
 
-/-- `flushLocked` whose append fails (and whose tail repair succeeds). -/
-theorem flush_append_fault (s : Store) (d : Disk) (hc : s.closed = false) (hr : s.repairRequired = false)
-    (hp : s.pending.isEmpty = false) :
-    (flushLocked s d .append).out = .errNotCommitted ∧ (flushLocked s d .append).st.idx = s.idx ∧
-    (flushLocked s d .append).st.pending = s.pending ∧ (flushLocked s d .append).st.closed = false ∧
-    (flushLocked s d .append).st.repairRequired = false ∧ (flushLocked s d .append).removed = [] := by
-  unfold flushLocked
-  simp only [hc, hr, hp, Bool.false_eq_true, ↓reduceIte]
-  unfold ensureWriter
-  cases s.writer <;> simp [hc, hr]
+/-- A `flushLocked` that reports "not committed" changed neither the index nor the pending
+records, and unlinked nothing. -/
+theorem flush_not_committed (s : Store) (d : Disk) (ft : Fault) (hc : s.closed = false)
+    (ho : (flushLocked s d ft).out = .errNotCommitted) :
+    (flushLocked s d ft).st.idx = s.idx ∧ (flushLocked s d ft).st.pending = s.pending ∧
+    (flushLocked s d ft).st.closed = false ∧ (flushLocked s d ft).removed = [] := by
+  obtain ⟨e1, e2, e3, _⟩ := ensureWriter_fields s d
+  unfold flushLocked at ho ⊢
+  simp only [hc, Bool.false_eq_true, ↓reduceIte] at ho ⊢
+  by_cases h1 : s.pending.isEmpty = true
+  · simp [h1] at ho
+  simp only [h1, Bool.false_eq_true, ↓reduceIte] at ho ⊢
+  by_cases h2 : s.repairRequired = true
+  · simp [h2, hc]
+  simp only [h2, Bool.false_eq_true, ↓reduceIte] at ho ⊢
+  by_cases h3 : (decide (ft = Fault.create) && s.writer.isNone) = true
+  · simp [h3, hc]
+  simp only [h3, Bool.false_eq_true, ↓reduceIte] at ho ⊢
+  by_cases h4 : ft = Fault.append
+  · simp [h4, e1, e2, e3, hc]
+  simp only [h4, ↓reduceIte] at ho ⊢
+  by_cases h5 : ft = Fault.appendNoRepair
+  · simp [h5, e1, e2, e3, hc]
+  simp only [h5, ↓reduceIte] at ho ⊢
+  by_cases h6 : countPrunes s.pending = 0
+  · simp [h6] at ho
+  simp only [h6, ↓reduceIte] at ho ⊢
+  by_cases h7 : s.sinceCleanup + countPrunes s.pending < cleanupInterval
+  · simp [h7] at ho
+  simp only [h7, ↓reduceIte] at ho ⊢
+  by_cases h8 : ft = Fault.watermark
+  · simp [h8] at ho
+  simp only [h8, ↓reduceIte] at ho ⊢
+  exact absurd ho (cleanup_out_committed _ _ _ _)
 
 theorem run_append (sys : Sys) (a b : List Op) : sys.run (a ++ b) = (sys.run a).run b := by
   simp [Sys.run, List.foldl_append]
